@@ -155,18 +155,19 @@ const (
 
 // Spelling selects among equivalent ways to write the same schema (C13).
 type Spelling struct {
-	LegacyID       bool  // "id" instead of "$id"
-	LegacyDefs     bool  // "definitions" + "#/definitions/"
-	BothDefs       bool  // both keywords with identical content
-	UpperRefPrefix bool  // "#/$DEFS/" (prefix match is case-insensitive)
-	StaleLegacy    bool  // with BothDefs: the legacy container holds a stale copy (required lists dropped)
-	PointerOther   bool  // pointers name the other container keyword than the one the document uses
-	TypeAsList     bool  // every single type as one-element list
-	AnyAsTrue      bool  // true instead of {} where allowed
-	LegacyDeps     bool  // "dependencies" instead of "dependentSchemas" (inert)
-	YAMLFlow       bool  // YAML written in flow style
-	YAMLBareKeys   bool  // numeric/boolean-looking keys unquoted in YAML
-	ShuffleKeys    []int // permutation seed stream for object key order (C12); nil = canonical
+	LegacyID         bool  // "id" instead of "$id"
+	LegacyDefs       bool  // "definitions" + "#/definitions/"
+	BothDefs         bool  // both keywords with identical content
+	UpperRefPrefix   bool  // "#/$DEFS/" (prefix match is case-insensitive)
+	StaleLegacy      bool  // with BothDefs: the legacy container holds a stale copy (required lists dropped)
+	YAMLPlainStrings bool  // block style: strings that need no quotes under YAML 1.2 are written plain
+	PointerOther     bool  // pointers name the other container keyword than the one the document uses
+	TypeAsList       bool  // every single type as one-element list
+	AnyAsTrue        bool  // true instead of {} where allowed
+	LegacyDeps       bool  // "dependencies" instead of "dependentSchemas" (inert)
+	YAMLFlow         bool  // YAML written in flow style
+	YAMLBareKeys     bool  // numeric/boolean-looking keys unquoted in YAML
+	ShuffleKeys      []int // permutation seed stream for object key order (C12); nil = canonical
 }
 
 type File struct {
@@ -481,7 +482,7 @@ func (f *File) Bytes() []byte {
 		v = Shuffle(v, f.Spelling.ShuffleKeys)
 	}
 	if f.Format == YAML {
-		return RenderYAML(v, f.Spelling.YAMLFlow, f.Spelling.YAMLBareKeys)
+		return RenderYAML(v, f.Spelling.YAMLFlow, f.Spelling.YAMLBareKeys, f.Spelling.YAMLPlainStrings)
 	}
 	return append(v.Indent(), '\n')
 }
